@@ -121,7 +121,7 @@ impl Prop for C08 {
     fn runs(&self, tier: Tier) -> u64 {
         match tier {
             Tier::Quick => 12_000,
-            Tier::Thorough => 1_500_000,
+            Tier::Thorough => 8_000_000,
         }
     }
     fn rule(&self) -> &'static str {
